@@ -11,7 +11,7 @@ import json, random
 import vlib, evalcheck as E
 
 LITS = {
-    "int": ["1", "7", "(1 + 2)", "(-5)", "(10 / 2)"],
+    "int": ["1", "7", "(1 + 2)", "(-5)", "(10 / 2)", "0", "2", "0x10", "0b11", "07", "5u", "3l"],
     "bool": ["true", "false", "(true && false)", "(false || true)", "(1 < 2)"],
     "string": ['"ab"', '""', '("a" + "b")', 'to_string(3)'],
     "vec": ["[1, 2]", "[]", "[1 + 1, 2 * 3]", '["x", "y"]', "[[1], [2, 3]]"],
@@ -98,10 +98,40 @@ class G:
         body = "; ".join(stmts + ["print(%s)" % v for v in vals])
         return self.defs, "def %s() { %s; 0 }" % (name, body)
 
+    def polymorphic(self):
+        """one loop / one counting loop evaluated again with another kind of range or from another activation: a node that remembers
+        something about its first evaluation shows up as a different answer for an equal call"""
+        r = self.r
+        k = self.fresh("p")
+        defs, names = [], []
+        if r.random() < 0.6:
+            self.note("ranged-for over different kinds of range")
+            defs.append("def sp%s(rg) { var s = \"\"; for (x : rg) { s += to_string(x) + \".\" }; s }" % k)
+            for arg in r.sample(['"abc"', "[1, 2, 3]", '["k": 7]', '""', "[]", "range([4, 5])"], r.randint(2, 4)):
+                n = self.fresh("fn")
+                defs.append("def %s() { print(sp%s(%s)); 0 }" % (n, k, arg))
+                names.append(n)
+        else:
+            self.note("counting loop re-entered")
+            defs.append("def wk%s(d) { var s = \"\"; for (var i = 0; i < 3; ++i) { s += to_string(i); if (d > 0) { s += wk%s(d - 1) } }; s }" % (k, k))
+            defs.append("def fg%s(n) { for (var i = 0; i < 10; ++i) { if (i >= n) { return i } }; -1 }" % k)
+            for body in ("print(wk%s(%d))" % (k, r.randint(1, 2)),
+                         # a value handed out by one evaluation must not change when the same code is evaluated again
+                         "var a := fg%s(3); var a0 = to_string(a); var b := fg%s(7); print(\"stable:\" + to_string(a0 == to_string(a))); print(a + b)" % (k, k),
+                         "var f; for (var i = 0; i < 3; ++i) { f = fun[i]() { i } }; print(f())"):
+                n = self.fresh("fn")
+                defs.append("def %s() { %s; 0 }" % (n, body))
+                names.append(n)
+        return defs, names
+
     def program(self):
         r = self.r
         nf = r.randint(1, 3)
         defs, names = [], []
+        if r.random() < 0.25:
+            d, nm = self.polymorphic()
+            defs += d
+            names += nm
         for _ in range(nf):
             name = self.fresh("fn")
             d, f = self.function(name)
@@ -166,6 +196,12 @@ def judge(c, progs, source):
         # (a) the tree is unchanged by its evaluation
         if tree2 is not None and tree2 != r["tree"]:
             c.fail("the syntax tree dumped after evaluation differs from the tree dumped before", {"program": progs[i], "source": source})
+        # (a') a value obtained from an earlier evaluation of a piece of code is not changed by evaluating that code again
+        try:
+            if "stable:false" in (bytes.fromhex(r["out"]).decode("latin-1") if r["out"] != "-" else ""):
+                c.fail("a value obtained from one evaluation of a loop changed when the same loop was evaluated again", {"program": progs[i], "source": source})
+        except ValueError:
+            pass
         # (b) equal calls give equal results
         segs = call_segments(r["out"])
         for fn, outs in segs.items():
